@@ -197,7 +197,7 @@ def reference_loop(cfg: Dict[str, Any], script, feats, criterion_fn) -> Tuple[Li
     init_state = None if cfg["init"] == "default" else (1.25,)
     if cfg["lazy"]:
         deriv.simulate(n_paths=1)
-        hedger.compute_pl(deriv, hedge=hedger.verif_hedge if not cfg["optclass"] else None) if not (cfg["optclass"] and cfg.get("hedge2")) else None
+        hedger.compute_pl(deriv, hedge=hedger.verif_hedge)         # the placeholder forward of fit(): on the hedge list fit() was given
         if not cfg["optclass"]:
             stock.pos = 0
     opt = torch.optim.SGD(list(model.parameters()) if cfg["optclass"] else owned(hedger, model, cfg), lr=2.0 ** -3)
@@ -358,6 +358,9 @@ def check(ctx: Ctx) -> None:
     # by fit() itself on the default hedge, which is a different - documented - usage)
     hedge_cfgs = [{"k": k, "n": 3, "ntimes": nt, "validation": v, "optclass": oc, "lazy": False, "init": ini, "pre_eval": False, "extra": False, "hedge2": True}
                   for k in (1, 2) for nt in (1, 2) for v in (True, False) for oc in (True, False) for ini in ("default", "custom")]
+    # ... and LAZY models with the hedge list: fit() materialises them itself (optimiser class), on the instruments it was asked to hedge with
+    hedge_cfgs += [{"k": k, "n": 3, "ntimes": 1, "validation": v, "optclass": True, "lazy": True, "init": ini, "pre_eval": False, "extra": False, "hedge2": True}
+                   for k in (1, 2) for v in (True, False) for ini in ("default", "custom")]
     from pfhedge.nn.modules.loss import OCE
 
     def oce():
